@@ -2,8 +2,11 @@
 import archlib
 
 ID = "C05"
-PROOF_MODULES = ["PyribsProofs.C05"]
+from genf import translate  # noqa: E402,F401  (regenerates lean/PyribsGen/Formulas.lean from the tree under check)
+PROOF_MODULES = ["PyribsProofs.C05", "PyribsGen.Formulas", "PyribsProofs.GenF"]
 THEOREMS = [
+    "Pyribs.GenFProofs.batch_threshold_matches",
+    "Pyribs.GenFProofs.single_threshold_matches",
     "Pyribs.C05.thr_update",
     "Pyribs.C05.thr_update_single",
     "Pyribs.C05.baseline_empty",
